@@ -332,3 +332,57 @@ example : ¬Admissible 0 0 [.reqHeaders true 0 .norm false, .hookDone .requesthe
   simp only [Admissible]; decide
 
 end MitmVerif.Props.C03
+
+-- ------------------------------------------------------------------------------------------------
+-- audit round 6 (added by the C01/C02 builder): further non-vacuity witnesses for `closed_implies_outcome`
+namespace MitmVerif.Props.C03
+open MitmVerif.C03
+
+/-- server-side fault after responseheaders: every hypothesis of `closed_implies_outcome_http1` holds (admissible,
+    settled, requestheaders fired, not CONNECT / pipe / websocket) and the outcome is `error`, not `response` -/
+private def exSrvErr : List Ev :=
+  [.reqHeaders true 0 .norm false, .reqEOM, .hookDone .requestheaders .pass, .hookDone .request .pass, .connDone true,
+   .respHeaders false 4 .norm, .hookDone .responseheaders .pass, .respErr, .hookDone .error .pass]
+
+example : admissible (init 0 0) .none exSrvErr = true ∧ (run 0 0 exSrvErr).settled = true ∧
+    (run 0 0 exSrvErr).core.isConnect = false ∧ (run 0 0 exSrvErr).core.pt = false ∧
+    (run 0 0 exSrvErr).core.websocket = false ∧ (run 0 0 exSrvErr).core.live = false ∧
+    (run 0 0 exSrvErr).trace.filterMap (fun o => match o with | .hook h => some h | _ => none)
+      = [.requestheaders, .request, .responseheaders, .error] := by decide
+
+/-- the server connection cannot be established: outcome `error` before any response hook -/
+private def exConnFail : List Ev :=
+  [.reqHeaders true 0 .norm false, .reqEOM, .hookDone .requestheaders .pass, .hookDone .request .pass, .connDone false,
+   .hookDone .error .pass]
+
+example : admissible (init 0 0) .none exConnFail = true ∧ (run 0 0 exConnFail).settled = true ∧
+    (run 0 0 exConnFail).core.isConnect = false ∧ (run 0 0 exConnFail).core.pt = false ∧
+    (run 0 0 exConnFail).core.websocket = false ∧ (run 0 0 exConnFail).core.live = false ∧
+    (run 0 0 exConnFail).trace.filterMap (fun o => match o with | .hook h => some h | _ => none)
+      = [.requestheaders, .request, .error] := by decide
+
+/-- body_size_limit = 5, Content-Length 30: the flow errors straight after requestheaders; the client then goes away -/
+private def exTooLarge : List Ev :=
+  [.reqHeaders false 30 .norm false, .hookDone .requestheaders .pass, .hookDone .error .pass, .reqErr]
+
+example : admissible (init 5 0) .none exTooLarge = true ∧ (run 5 0 exTooLarge).settled = true ∧
+    (run 5 0 exTooLarge).core.live = false ∧
+    (run 5 0 exTooLarge).trace.filterMap (fun o => match o with | .hook h => some h | _ => none)
+      = [.requestheaders, .error] := by decide
+
+/-- the exclusions are real: a websocket upgrade is an admissible history that fired requestheaders and `response`,
+    became a pipe with a live flow, and is never `settled` by the client going away afterwards -/
+private def exWs : List Ev :=
+  [.reqHeaders true 0 .norm true, .reqEOM, .hookDone .requestheaders .pass, .hookDone .request .pass, .connDone true,
+   .respHeaders true 0 .ws101, .hookDone .responseheaders .pass, .respEOM, .hookDone .response .pass, .reqErr]
+
+example : admissible (init 0 0) .none exWs = true ∧ (run 0 0 exWs).core.pt = true ∧ (run 0 0 exWs).core.websocket = true ∧
+    (run 0 0 exWs).core.live = true ∧ (run 0 0 exWs).settled = false := by decide
+
+/-- CONNECT never fires requestheaders (so `hrh` already excludes tunnels; `isConnect = false` is belt and braces) -/
+example : admissible (init 0 0) .none [.reqHeaders true 0 .connect false, .reqEOM, .hookDone .connect .pass, .openDone false,
+      .hookDone .connectError .pass] = true ∧
+    Out.hook .requestheaders ∉ (run 0 0 [.reqHeaders true 0 .connect false, .reqEOM, .hookDone .connect .pass, .openDone false,
+      .hookDone .connectError .pass]).trace := by decide
+
+end MitmVerif.Props.C03
